@@ -28,6 +28,10 @@ type backupClient struct {
 	tokenT   *types.Named
 	literals []tokenSite
 	classes  map[string][]bool // sub-scanner -> first characters (below U+3100) for which Scan calls it
+	// helpers that give back a rune their caller has read (a prev() before any read of their own): interpreted in
+	// place in every caller, where the usual rule decides
+	relies map[*types.Func]bool
+	self   *types.Func
 }
 
 type tokenSite struct {
@@ -53,6 +57,9 @@ func (c *backupClient) Inline(e *Engine, call *ast.CallExpr, callee *types.Func,
 	if (InlinePredicates{}).Inline(e, call, callee, decl) {
 		return true // isIdentStart(c), isQuote(c): the facts they stand for
 	}
+	if c.relies[callee] && callee != c.self && smallBody(decl) {
+		return true
+	}
 	if c.tokenT == nil || callee == c.next || callee == c.prev || !smallBody(decl) {
 		return false
 	}
@@ -73,6 +80,12 @@ func (c *backupClient) Inline(e *Engine, call *ast.CallExpr, callee *types.Func,
 		}
 		return true
 	})
+	// a helper of the dispatch that also reports something besides a token (slashOrComment: the token and whether
+	// it was a comment) is part of the clause that calls it even if it loops over the comment's text; a method that
+	// returns just a token and loops is a sub-scanner, with rules of its own
+	if loops && lookahead && sig.Results().Len() > 1 {
+		return true
+	}
 	return !loops
 }
 
@@ -234,7 +247,11 @@ func (c *backupClient) PreCall(e *Engine, st *State, call *ast.CallExpr, callee 
 	key := fmt.Sprintf("%s prev() #%d", c.where(e), c.ordinal(e, call))
 	last := st.Ext("lastnext:" + rk)
 	switch {
-	case last == "":
+	case last == "entry" && len(e.Frames()) == 0:
+		// nothing was read since the helper was entered: it gives back what its caller read
+		c.relies[c.self] = true
+		e.Site("C09/backup", key, call, true, "gives back the rune its caller has just read: decided in every caller, where the helper is interpreted in place")
+	case last == "" || last == "entry":
 		e.Site("C09/backup", key, call, false, "prev() with no preceding next() on this path: the saved position is stale, an already consumed rune would be read again")
 	case strings.HasPrefix(last, "after:"):
 		e.Site("C09/backup", key, call, false, "prev() after "+strings.TrimPrefix(last, "after:")+" without a fresh next(): the saved position is stale")
@@ -673,27 +690,69 @@ func ruleC09Backup(p *Program, r *Run) {
 	prev := FuncObj(pkg, p.MustFunc(pkg, "scanner.prev"))
 	var scanSites []tokenSite
 	var scanClasses map[string][]bool
-	for _, fd := range AllFuncs(pkg) {
+	relies := map[*types.Func]bool{}
+	usesCursor := func(fd *ast.FuncDecl) bool {
 		uses := false
 		ast.Inspect(fd.Body, func(n ast.Node) bool {
 			if call, ok := n.(*ast.CallExpr); ok {
-				if cal := Callee(pkg.TypesInfo, call); cal == next || cal == prev {
+				if cal := Callee(pkg.TypesInfo, call); cal == next || cal == prev || relies[cal] {
 					uses = true
 				}
 			}
 			return true
 		})
-		if !uses {
+		return uses
+	}
+	entryState := func(e *Engine, fd *ast.FuncDecl, c *backupClient) *State {
+		// a method of the scanner starts with nothing read: a prev() there is about the caller's read
+		if fd.Recv == nil || len(fd.Recv.List[0].Names) != 1 || !c.isScannerMethod(c.self) {
+			return nil
+		}
+		k := e.Canon(fd.Recv.List[0].Names[0])
+		if !k.OK {
+			return nil
+		}
+		return newState().WithExt("lastnext:"+strings.TrimPrefix(k.Key, "&"), "entry")
+	}
+	// which helpers rely on their caller's read (quiet pass)
+	for _, fd := range AllFuncs(pkg) {
+		if !usesCursor(fd) || fd.Recv == nil {
+			continue
+		}
+		c := &backupClient{p: p, next: next, prev: prev, scannerT: scannerT, fn: FuncName(pkg, fd), relies: relies, self: FuncObj(pkg, fd)}
+		e := NewEngine(p, pkg, fd, c)
+		e.Run(entryState(e, fd, c))
+	}
+	// such a helper must be called only from functions this rule analyses (where it is interpreted in place)
+	for h := range relies {
+		for _, fd := range AllFuncs(pkg) {
+			if FuncObj(pkg, fd) == h {
+				continue
+			}
+			calls := false
+			ast.Inspect(fd.Body, func(n ast.Node) bool {
+				if call, ok := n.(*ast.CallExpr); ok && Callee(pkg.TypesInfo, call) == h {
+					calls = true
+				}
+				return true
+			})
+			if calls && !p.isLexerFunc(fd) {
+				r.Fail("C09/backup", FuncName(pkg, fd)+" calls "+h.Name(), p.Pos(fd.Pos()), "a helper that gives back a rune its caller has read is called from outside the lexer")
+			}
+		}
+	}
+	for _, fd := range AllFuncs(pkg) {
+		if !usesCursor(fd) {
 			continue
 		}
 		fn := FuncName(pkg, fd)
 		r.Saw(fn)
-		c := &backupClient{p: p, next: next, prev: prev, scannerT: scannerT, fn: fn}
+		c := &backupClient{p: p, next: next, prev: prev, scannerT: scannerT, fn: fn, relies: relies, self: FuncObj(pkg, fd)}
 		if fd.Name.Name == "Scan" && fd.Recv == nil {
 			c.tokenT = p.Named(pkg, "Token")
 		}
 		e := NewEngine(p, pkg, fd, c)
-		e.Run(nil)
+		e.Run(entryState(e, fd, c))
 		for _, m := range e.Errs {
 			r.Fail("C09/backup", fn+" engine", "-", m)
 		}
@@ -1534,6 +1593,75 @@ func ruleC09Spans(p *Program, r *Run) {
 		}
 		return false
 	}
+	// token constructors: functions that return a token whose span is one of their parameters, handed on unchanged
+	// to the token literal or to another constructor (errorToken, and helpers written like it). Their call sites
+	// are where the span is checked.
+	spanT := p.spanType()
+	ctors := map[*types.Func]int{}
+	ctorParam := map[*types.Func]types.Object{}
+	for _, fd := range AllFuncs(pkg) {
+		f := FuncObj(pkg, fd)
+		if f == nil || fd.Recv != nil {
+			continue
+		}
+		sig := f.Type().(*types.Signature)
+		if sig.Results().Len() != 1 || !types.Identical(sig.Results().At(0).Type(), tokenT) {
+			continue
+		}
+		idx := 0
+		for _, fl := range fd.Type.Params.List {
+			for _, nm := range fl.Names {
+				if types.Identical(info.TypeOf(nm), spanT) {
+					if _, have := ctors[f]; !have {
+						ctors[f] = idx
+						ctorParam[f] = info.Defs[nm]
+					}
+				}
+				idx++
+			}
+		}
+	}
+	for changed := true; changed; {
+		changed = false
+		for _, fd := range AllFuncs(pkg) {
+			f := FuncObj(pkg, fd)
+			if _, is := ctors[f]; !is {
+				continue
+			}
+			good, builds := true, false
+			ast.Inspect(fd.Body, func(x ast.Node) bool {
+				switch v := x.(type) {
+				case *ast.CompositeLit:
+					if types.Identical(info.TypeOf(v), tokenT) {
+						builds = true
+						if sp := litField(info, v, "Span"); sp == nil || objOf(info, sp) != ctorParam[f] {
+							good = false
+						}
+					}
+				case *ast.CallExpr:
+					if g := Callee(info, v); g != nil {
+						if gi, is := ctors[g]; is && g != f {
+							builds = true
+							if gi >= len(v.Args) || objOf(info, v.Args[gi]) != ctorParam[f] {
+								good = false
+							}
+						}
+					}
+				case *ast.AssignStmt:
+					for _, l := range v.Lhs {
+						if objOf(info, l) == ctorParam[f] {
+							good = false
+						}
+					}
+				}
+				return true
+			})
+			if !good || !builds {
+				delete(ctors, f)
+				changed = true
+			}
+		}
+	}
 	for _, fd := range AllFuncs(pkg) {
 		if !p.isLexerFunc(fd) {
 			continue
@@ -1585,26 +1713,43 @@ func ruleC09Spans(p *Program, r *Run) {
 				}
 				spanE = litField(info, v, "Span")
 				what = "Token{Kind: " + exprStr(orIdent(litField(info, v, "Kind"))) + "}"
+				if len(v.Elts) == 0 {
+					// the zero token: a placeholder result ("no token here"), not a token of the source - unless it
+					// is put into a token list
+					if call, isCall := p.Parent(v).(*ast.CallExpr); !isCall || !IsBuiltinCall(info, call, "append") {
+						return true
+					}
+				}
 				if spanE == nil {
 					n++
 					r.Fail("C09/spans", fmt.Sprintf("%s %s #%d", fn, what, n), p.Pos(v.Pos()), "token built without a span")
 					return true
 				}
 			case *ast.CallExpr:
-				if Callee(info, v) != errTok {
+				g := Callee(info, v)
+				gi, isCtor := ctors[g]
+				if g != errTok && !isCtor {
 					return true
 				}
-				spanE = v.Args[0]
-				what = "errorToken"
+				if g == errTok && !isCtor {
+					gi = 0
+				}
+				if gi >= len(v.Args) {
+					return true
+				}
+				spanE = v.Args[gi]
+				what = g.Name()
 			default:
 				return true
 			}
 			n++
 			r.Saw(fn)
-			if FuncObj(pkg, fd) == errTok {
-				if v, isVar := objOf(info, spanE).(*types.Var); isVar && v.Parent() == info.Scopes[fd.Type] {
-					r.Pass("C09/spans", fmt.Sprintf("%s %s #%d", fn, what, n), p.Pos(x.Pos()), "span forwarded from the parameter; every call site of errorToken is checked")
-					return true
+			if self := FuncObj(pkg, fd); self == errTok || ctorParam[self] != nil {
+				if _, is := ctors[self]; is || self == errTok {
+					if v, isVar := objOf(info, spanE).(*types.Var); isVar && v.Parent() == info.Scopes[fd.Type] {
+						r.Pass("C09/spans", fmt.Sprintf("%s %s #%d", fn, what, n), p.Pos(x.Pos()), "span forwarded from the parameter; every call site of "+self.Name()+" is checked")
+						return true
+					}
 				}
 			}
 			ok, why := okSpan(spanE, 0)
@@ -1997,31 +2142,26 @@ func ruleC09Unquote(p *Program, r *Run) {
 	qd := p.MustFunc(pkg, "scanner.quotedIdent")
 	r.Saw(FuncName(pkg, qd))
 	okUn := false
-	ast.Inspect(qd.Body, func(n ast.Node) bool {
-		cl, ok := n.(*ast.CompositeLit)
-		if !ok || TypeStr(info.TypeOf(cl)) != "parser.Token" {
-			return true
-		}
+	for _, cl := range p.tokenLits(qd.Body) {
 		if k := litField(info, cl, "Kind"); k == nil || constName(info, k) != "TokenQuotedIdentifier" {
-			return true
+			continue
 		}
 		v := litField(info, cl, "Value")
 		if v == nil {
-			return true
+			continue
 		}
 		call, isCall := p.DefExpr(v).(*ast.CallExpr)
 		if !isCall || len(call.Args) != 3 {
-			return true
+			continue
 		}
 		if f := Callee(info, call); f == nil || f.FullName() != "strings.ReplaceAll" {
-			return true
+			continue
 		}
 		from, _ := constString(info, call.Args[1])
 		to, _ := constString(info, call.Args[2])
 		_, isSlice := p.DefExpr(call.Args[0]).(*ast.SliceExpr)
 		okUn = from == "``" && to == "`" && isSlice
-		return true
-	})
+	}
 	r.Check(okUn, "C09/unquote", FuncName(pkg, qd)+" value", p.Pos(qd.Pos()), "the text between the backticks with every doubled backtick reduced to one", "the value of a backtick-quoted identifier is not the enclosed text with `` reduced to `")
 	r.Floor("C09/unquote", 1)
 }
@@ -2186,7 +2326,7 @@ func (p *Program) scanEntryClasses() (map[string][]bool, map[string]bool) {
 	if fd == nil {
 		return p.entryClasses, p.entryBacked
 	}
-	c := &backupClient{p: p, next: FuncObj(pkg, p.MustFunc(pkg, "scanner.next")), prev: FuncObj(pkg, p.MustFunc(pkg, "scanner.prev")), scannerT: p.Named(pkg, "scanner"), fn: FuncName(pkg, fd), tokenT: p.Named(pkg, "Token")}
+	c := &backupClient{p: p, next: FuncObj(pkg, p.MustFunc(pkg, "scanner.next")), prev: FuncObj(pkg, p.MustFunc(pkg, "scanner.prev")), scannerT: p.Named(pkg, "scanner"), fn: FuncName(pkg, fd), tokenT: p.Named(pkg, "Token"), relies: map[*types.Func]bool{}}
 	e := NewEngine(p, pkg, fd, c)
 	e.Run(nil)
 	if len(e.Errs) == 0 {
